@@ -804,7 +804,7 @@ def rand_float(rng, t, nonzero=False, allow_negzero=False):
     return 1.0
 
 
-WCHARS = "AZaz09 éÿĀЖ中￮�☃\u0001\u007f퟿"
+WCHARS = "AZaz09 éÿĀЖ中￮�☃\u0001\u007f퟿\ufeff\ufffe\uffff"   # incl. the byte-order marks (U+FEFF, U+FFFE) and U+FFFF
 
 
 def rand_wstr(rng, units, no_nul=True):
